@@ -19,7 +19,7 @@ PROFILE = {
     "max_stages": 7, "shapes": ["random", "random", "diamond", "diamond2", "side", "fan", "chain"],
     "joins": ["AND"], "behaviours": {"ok": 10, "poller": 1, "transient": 1},
     "synth_p": 0.0, "loop_p": 0.3, "or_split_p": 0.15, "outputs_p": 0.9, "multi_task_p": 0.35,
-    "disabled_p": 0.05, "builder_tasks_p": 0.1, "max_jumps": [None],
+    "disabled_p": 0.05, "builder_tasks_p": 0.1, "max_jumps": [None], "once_p": 0.2,
 }
 
 
@@ -76,11 +76,20 @@ def judge(prog: Program, ref: Any, run: dict[str, Any], info: dict[str, Any]) ->
             claims.setdefault(r["row_id"], []).append(r["seq"])
 
     def latest_at_plan(e: dict[str, Any], P: str, pidx: int) -> int:
-        """Iteration of producer (P, pidx)'s latest producing execution before the consuming stage was started."""
+        """Iteration of producer (P, pidx)'s latest completed execution before the consuming stage was started
+        (whether or not that execution produced the key: a value of an older iteration is stale either way)."""
         cs = [c for c in claims.get(e["stage_id"], []) if c <= e["audit_seq"]]
         plan_seq = max(cs) if cs else e["audit_seq"]
         its = [it for (q, it) in produced_log.get((P, pidx), []) if q < plan_seq]
         return max(its) if its else -1
+
+    def produces_at(e: dict[str, Any], P: str, idx: int, k: str) -> bool:
+        """Did (P, idx)'s latest execution completed before the consuming stage started produce key k?"""
+        t = prog.task_specs(P)[idx]
+        if k not in (t.get("out") or {}):
+            return False
+        it0 = latest_at_plan(e, P, idx)
+        return it0 >= 0 and not (t.get("once") and it0 > 0)
 
     for e in h.ledger:
         sref = e["stage_ref"]
@@ -117,7 +126,7 @@ def judge(prog: Program, ref: Any, run: dict[str, Any], info: dict[str, Any]) ->
                                      + (" (value carried over in the stage's own context from its previous run)" if baked else ""),
                                      "stale-iteration:" + ("baked" if baked else "fresh")))
                 # nearest ancestor wins on path-ordered keys
-                producers = [a for a in anc if k in prod_specs.get(a, {}) and any(latest.get((a, i), -1) >= 0 for i in prod_specs[a][k])]
+                producers = [a for a in anc if k in prod_specs.get(a, {}) and any(produces_at(e, a, i, k) for i in prod_specs[a][k])]
                 maximal = [a for a in producers if not any(a in prog.ancestors(b) for b in producers if b != a)]
                 if maximal and P not in maximal:
                     problems.append(("farther-ancestor-wins", f"{e['key']} sees {k} from {P} although nearer producer(s) {sorted(maximal)} exist", "not-nearest"))
@@ -126,7 +135,7 @@ def judge(prog: Program, ref: Any, run: dict[str, Any], info: dict[str, Any]) ->
                 for k, idxs in prod_specs.get(a, {}).items():
                     if k in own:
                         continue
-                    if any(latest.get((a, i), -1) >= 0 for i in idxs) and k not in ctx:
+                    if any(produces_at(e, a, i, k) for i in idxs) and k not in ctx:
                         problems.append(("ancestor-output-missing", f"{e['key']} does not see key {k} produced by ancestor {a}", "missing"))
             for k in LIST_KEYS:
                 got = ctx.get(k)
@@ -140,7 +149,7 @@ def judge(prog: Program, ref: Any, run: dict[str, Any], info: dict[str, Any]) ->
                 for a in anc:
                     # inside one stage a later task's value replaces an earlier task's (outputs.update): the
                     # stage contributes the value of its last completed producer of the key
-                    done = [(i, latest.get((a, i), -1)) for i in prod_specs.get(a, {}).get(k, []) if latest.get((a, i), -1) >= 0]
+                    done = [(i, latest_at_plan(e, a, i)) for i in prod_specs.get(a, {}).get(k, []) if produces_at(e, a, i, k)]
                     if done:
                         i, itn = done[-1]
                         want.add(f"{a}.{i}#{itn}#{k}")
